@@ -78,23 +78,23 @@ def iatSlotOf (l : Str) : Option Slot :=
   | some 2 => some ⟨10, false⟩
   | _ => none
 
-def classify (l : Str) (v1 v2 v3 b : Bool) (id : Nat) : Rec :=
+def classify (l : Str) (id : Nat) : Rec :=
   match caseIndex (caseLists sw_parseLine 0) (sliceStr l 0 1) with
-  | some 0 => .fh v1 id
+  | some 0 => .fh id
   | some 1 =>
     let sec := sliceStr l 50 53
-    if sec = S.IAT || String.ofList (trimSpace ((l.drop 4).take 16)) = S.IATCOR then .bh .iat v3 true id
-    else .bh (if sec = S.ADV then .adv else .std) v1 v2 id
-  | some 2 => .ed (parseNumField ((l.drop 78).take 1) == 1) v1 v2 v3 id
-  | some 3 => .ad (stdSlotOf l) (iatSlotOf l) v1 v2 v3 id
-  | some 4 => .bc v1 v2 b id
-  | some 5 => if sliceStr l 0 2 = "99" then .filler else .fc v1 v2 id
+    if sec = S.IAT || String.ofList (trimSpace ((l.drop 4).take 16)) = S.IATCOR then .bh .iat id
+    else .bh (if sec = S.ADV then .adv else .std) id
+  | some 2 => .ed (parseNumField ((l.drop 78).take 1) == 1) id
+  | some 3 => .ad (stdSlotOf l) (iatSlotOf l) id
+  | some 4 => .bc id
+  | some 5 => if sliceStr l 0 2 = "99" then .filler else .fc id
   | _ => .unknown id
 
 /-! ## printing -/
 
 def Rec.id : Rec → Option Nat
-  | .fh _ i | .bh _ _ _ i | .ed _ _ _ _ i | .ad _ _ _ _ _ i | .bc _ _ _ i | .fc _ _ i | .unknown i => some i
+  | .fh i | .bh _ i | .ed _ i | .ad _ _ i | .bc i | .fc i | .unknown i => some i
   | .filler => none
 
 def showId (r : Option Rec) : String :=
@@ -126,17 +126,17 @@ def showSt (s : St) : String :=
   s!"H{showId s.header} C{showId s.control} A{showId s.advControl} B[{";".intercalate (s.batches.map showBatch)}] " ++
   s!"I[{";".intercalate (s.iatBatches.map showBatch)}] E[{",".intercalate (s.errs.map showErr)}]"
 
-def parseTok (tok : String) (id : Nat) : Option Rec :=
+def parseTok (tok : String) (id : Nat) : Option (Rec × Bits) :=
   match tok.splitOn ":" with
   | [h, bits] =>
     match Ach.Driver.hexToStr h, bits.toList with
     | some l, [a, b, c, d] =>
-      if [a, b, c, d].all (fun x => x = '0' || x = '1') then some (classify l (a = '1') (b = '1') (c = '1') (d = '1') id)
+      if [a, b, c, d].all (fun x => x = '0' || x = '1') then some (classify l id, ⟨a = '1', b = '1', c = '1', d = '1'⟩)
       else none
     | _, _ => none
   | _ => none
 
-def parseToks : List String → Nat → Option (List Rec)
+def parseToks : List String → Nat → Option (List (Rec × Bits))
   | [], _ => some []
   | t :: ts, id =>
     match parseTok t id, parseToks ts (id + 1) with
